@@ -310,9 +310,8 @@ def evaluate(lines, compare=None):
 # ------------------------------------------------------------------ known findings
 
 def load_known(pid):
-    # known_findings.jsonl plus the per-property proposals findings/known_findings_<pid>.jsonl (same format)
-    paths = [os.path.join(VERIF, "known_findings.jsonl")] + \
-        sorted(glob.glob(os.path.join(VERIF, "findings", "known_findings_*.jsonl")))
+    # the one committed known-findings file; never written at run time
+    paths = [os.path.join(VERIF, "known_findings.jsonl")]
     out = []
     for p in [q for q in paths if os.path.exists(q)]:
         for l in open(p):
